@@ -195,7 +195,7 @@ type Sim struct {
 var cur *Sim // the active simulation (nil: pass-through)
 
 // goid → task table (open addressing, tombstone-free within a run)
-const goidTabSize = 1 << 15
+const goidTabSize = 1 << 18
 
 type goidEnt struct {
 	id uint64
@@ -210,7 +210,7 @@ func lookupTask() *Task {
 		return nil
 	}
 	id := goid()
-	h := (id * 0x9e3779b97f4a7c15) >> 49 // 15 bits
+	h := (id * 0x9e3779b97f4a7c15) >> 46 // 15 bits
 	for i := 0; i < goidTabSize; i++ {
 		e := &goidTab[(int(h)+i)&(goidTabSize-1)]
 		if e.id == id {
@@ -225,7 +225,7 @@ func lookupTask() *Task {
 
 //go:norace
 func insertTask(id uint64, t *Task) {
-	h := (id * 0x9e3779b97f4a7c15) >> 49
+	h := (id * 0x9e3779b97f4a7c15) >> 46
 	for i := 0; i < goidTabSize; i++ {
 		e := &goidTab[(int(h)+i)&(goidTabSize-1)]
 		if e.id == 0 || e.id == id {
@@ -239,7 +239,7 @@ func insertTask(id uint64, t *Task) {
 
 //go:norace
 func removeTask(id uint64) {
-	h := (id * 0x9e3779b97f4a7c15) >> 49
+	h := (id * 0x9e3779b97f4a7c15) >> 46
 	for i := 0; i < goidTabSize; i++ {
 		e := &goidTab[(int(h)+i)&(goidTabSize-1)]
 		if e.id == id {
